@@ -6,6 +6,7 @@ CONSTANTS
     MaxIap = 1
     MaxIav = 1
     MaxSur = 1
+    MaxRo = 1
     MaxComps = 2
     Fns = {"two", "inc"}
     UseData = FALSE
